@@ -89,6 +89,7 @@ def canon_cond(w, lab):
 DECOR = ('with_span', 'with_file', 'map_err', 'ok_or', 'ok_or_else')
 
 
+_CFG = [None]     # feature configuration whose facts the current table rows are built from (None = default)
 _FX = [None]      # facts of the current run (set by decision_table) for closure look-through in norm()
 _ETA = {}
 
@@ -293,7 +294,7 @@ def outcome(kind, ret):
 
 
 ACCESSORS = r"^(<(types|value|pattern|num|str)::[\w:]+(<[^>]*>)? as std::convert::(From|TryFrom)<.*>>::(from|try_from)(::\{closure#\d+\})*|<.* as miniscript::iter::TreeLike>::as_node|<types::\w+ as types::TypeDeconstructible>::\w+|types::TypeDeconstructible::is_unit|parse::MatchPattern::as_\w+|pattern::BasePattern::(as_identifier|is_ignore)|types::AliasedType::as_(alias|builtin)|types::UIntType::two_n|value::UIntValue::(get_type|is_of_type)|<value::UIntValue as std::convert::From<(u\d+|num::U256)>>::from|<types::BuiltinAlias as std::str::FromStr>::from_str|ast::Program::analyze::\{closure#\d+\}|ast::analyze_named_module::\{closure#\d+\})$"
-FULL = re.compile(r'^(ast::Scope::\w+(::\{closure#\d+\})*|<(parse|str|types|value|num|error)::\w+ as std::fmt::Display>::fmt(::\{closure#\d+\})*|<.* as parse::PestParse>::parse(::\{closure#\d+\})*|<types::StructuralType as types::TypeConstructible>::\w+(::\{closure#\d+\})*|<value::StructuralValue as value::ValueConstructible>::\w+(::\{closure#\d+\})*|<value::Value as value::ValueConstructible>::\w+(::\{closure#\d+\})*|<types::ResolvedType as types::TypeConstructible>::\w+|value::destruct::\w+(::\{closure#\d+\})*|<value::StructuralValue as std::convert::From<(bool|value::UIntValue)>>::from|<types::StructuralType as std::convert::From<types::UIntType>>::from|array::\w+::<.*>::(fold|unfold|from_slice|is_complete)|<array::\w+<.*> as miniscript::iter::TreeLike>::as_node|debug::(DebugSymbols::insert|remove_excess_whitespace|CallTracker::(track_call|with_file|get_cmr|next_id_cmr)|TrackedCall::map_value)(::\{closure#\d+\})*|<A as parse::ParseFromStr>::parse_from_str|TemplateProgram::new|TemplateProgram::instantiate|CompiledProgram::new|<value::Value as std::fmt::Display>::fmt(::\{closure#\d+\})*|<parse::ExprTree<\'_> as std::fmt::Display>::fmt|types::TypeInner::<A>::display|<pattern::Pattern as std::fmt::Display>::fmt|error::Span::to_slice|<error::RichError as std::fmt::Display>::fmt|<witness::(WitnessValues|Arguments) as std::fmt::Display>::fmt|<witness::(WitnessValues|Arguments) as parse::ParseFromStr>::parse_from_str(::\{closure#\d+\})*|value::Value::parse_from_str|witness::<impl parse::ParseFromStr for types::ResolvedType>::parse_from_str)$')
+FULL = re.compile(r'^(<?serde::.*|witness::(Arguments|WitnessValues)::as_inner|ast::Scope::\w+(::\{closure#\d+\})*|<(parse|str|types|value|num|error)::\w+ as std::fmt::Display>::fmt(::\{closure#\d+\})*|<.* as parse::PestParse>::parse(::\{closure#\d+\})*|<types::StructuralType as types::TypeConstructible>::\w+(::\{closure#\d+\})*|<value::StructuralValue as value::ValueConstructible>::\w+(::\{closure#\d+\})*|<value::Value as value::ValueConstructible>::\w+(::\{closure#\d+\})*|<types::ResolvedType as types::TypeConstructible>::\w+|value::destruct::\w+(::\{closure#\d+\})*|<value::StructuralValue as std::convert::From<(bool|value::UIntValue)>>::from|<types::StructuralType as std::convert::From<types::UIntType>>::from|array::\w+::<.*>::(fold|unfold|from_slice|is_complete)|<array::\w+<.*> as miniscript::iter::TreeLike>::as_node|debug::(DebugSymbols::insert|remove_excess_whitespace|CallTracker::(track_call|with_file|get_cmr|next_id_cmr)|TrackedCall::map_value)(::\{closure#\d+\})*|<A as parse::ParseFromStr>::parse_from_str|TemplateProgram::new|TemplateProgram::instantiate|CompiledProgram::new|<value::Value as std::fmt::Display>::fmt(::\{closure#\d+\})*|<parse::ExprTree<\'_> as std::fmt::Display>::fmt|types::TypeInner::<A>::display|<pattern::Pattern as std::fmt::Display>::fmt|error::Span::to_slice|<error::RichError as std::fmt::Display>::fmt|<witness::(WitnessValues|Arguments) as std::fmt::Display>::fmt|<witness::(WitnessValues|Arguments) as parse::ParseFromStr>::parse_from_str(::\{closure#\d+\})*|value::Value::parse_from_str|witness::<impl parse::ParseFromStr for types::ResolvedType>::parse_from_str)$')
 
 
 def unq(t):
@@ -379,13 +380,17 @@ def expand_result(v, top=True, kind='R'):
     return [(['%s=%s' % (S(v), good)], v, None), (['%s=%s' % (S(v), bad)], None, v)]
 
 
-def decision_table(ctx, fn, max_visits=1, full=None, plain=False, table=False):
+def decision_table(ctx, fn, max_visits=1, full=None, plain=False, table=False, config=None):
     prev = _ACC_ON[0]
     _ACC_ON[0] = bool(table)
+    prevc = _CFG[0]
+    if config is not None:
+        _CFG[0] = config
     try:
         rows = _decision_table(ctx, fn, max_visits, full, plain)
     finally:
         _ACC_ON[0] = prev
+        _CFG[0] = prevc
     if table:
         # loop-carried locals (`?name`) by position, not by their source names
         names = set()
@@ -419,7 +424,7 @@ def _decision_table(ctx, fn, max_visits=1, full=None, plain=False):
     if full is None:
         full = bool(FULL.match(fn.path) or re.match(ACCESSORS, fn.path))
     rows = []
-    fx = ctx.facts()
+    fx = ctx.facts(_CFG[0]) if _CFG[0] else ctx.facts()
     _FX[0] = fx
 
     def with_closure_errors(v):
@@ -433,7 +438,7 @@ def _decision_table(ctx, fn, max_visits=1, full=None, plain=False):
                         if k2 == 'RET' and isinstance(r2, tuple):
                             extra += err_variants(r2)
         return extra
-    for kind, p, ret in explore(ctx, fn, max_visits=max_visits, havoc=full, max_paths=6000, follow_break=True):
+    for kind, p, ret in explore(ctx, fn, max_visits=max_visits, havoc=full, max_paths=6000, follow_break=True, facts=fx):
         if p is None:
             rows.append({'conds': ['<path explosion>'], 'checks': [], 'out': 'toomany'})
             continue
@@ -626,9 +631,9 @@ def guard_functions(fx):
     return sorted(out)
 
 
-def compare(ctx, rid, paths, table, what, fields=ALL_FIELDS, rowsel=None):
+def compare(ctx, rid, paths, table, what, fields=ALL_FIELDS, rowsel=None, config=None):
     """Compare current decision tables of `paths` with the frozen table; one obligation per function plus one per differing row."""
-    fx = ctx.facts()
+    fx = ctx.facts(config) if config else ctx.facts()
     n = 0
     for path in paths:
         fn = fx.F.get(path)
@@ -640,7 +645,7 @@ def compare(ctx, rid, paths, table, what, fields=ALL_FIELDS, rowsel=None):
             want = sorted(row_key(r, fields) for r in frozen['rows'])
             for q, qf in fx.F.items():
                 if '{closure#' in q and q not in known and not qf.macro:
-                    if sorted(row_key(r, fields) for r in decision_table(ctx, qf, frozen.get('max_visits', 1), bool(FULL.match(path)), table=True)) == want:
+                    if sorted(row_key(r, fields) for r in decision_table(ctx, qf, frozen.get('max_visits', 1), bool(FULL.match(path)), table=True, config=config)) == want:
                         fn = qf
                         break
             if fn is not None:
@@ -666,7 +671,7 @@ def compare(ctx, rid, paths, table, what, fields=ALL_FIELDS, rowsel=None):
         if frozen is None:
             ctx.ob(rid, 'fn-unlisted:' + path, False, 'function constructs errors but has no reviewed decision table', fn.where())
             continue
-        cur = decision_table(ctx, fn, frozen.get('max_visits', 1), table=True)
+        cur = decision_table(ctx, fn, frozen.get('max_visits', 1), table=True, config=config)
         frozen_rows = frozen['rows']
         if rowsel is not None:
             # the property depends on some arms of this function only: compare those rows
@@ -729,5 +734,5 @@ def _fmt_row(m):
     return out
 
 
-def load_table():
-    return json.load(open(TABLE))['functions']
+def load_table(config=None):
+    return json.load(open(TABLE))['functions' if not config or config == 'default' else 'functions_' + config]
